@@ -290,6 +290,16 @@ def _db():
     def gen(rng):
         c = ops_cfg(rng, ["q", "q", "tx_commit", "tx_rollback"])
         c.update(maxc=rng.randint(1, 3), ql=lat(rng, hi=0.02), cl=lat(rng, hi=0.02), col=lat(rng, hi=0.02), rl=lat(rng, hi=0.02))
+        if rng.random() < 0.4:
+            # pool exhaustion: 1-2 connections, more simultaneous queries than connections, queries that take time,
+            # and connections that are handed over in zero time (in-process / pre-established) in half of these runs
+            mc = rng.randint(1, 2)
+            t1 = rng.randrange(0, 10**9)
+            arr = [[t1, rng.choice(["q", "q", "tx_commit"]), j, rng.choice([0.0, 0.01])] for j in range(mc + rng.randint(1, 4))]
+            arr += [[t1 + rng.randrange(1, 5 * 10**7), "q", 0, 0.0] for _ in range(rng.randint(0, 5))]
+            arr.sort(key=lambda a: a[0])
+            c.update(arr=arr, maxc=mc, ql=lat(rng, zero_p=0.0, hi=0.03), cl=rng.choice([0.0, 0.0, lat(rng, hi=0.005)]),
+                     tags=c["tags"] + ["pool_exhaustion"])
         return c
 
     def build(z, c):
@@ -857,7 +867,7 @@ def _resource():
 def _preempt():
     def gen(rng):
         c = ops_cfg(rng, ["acq", "acq", "acq2", "nopreempt"], nkeys=4)
-        c.update(cap=rng.randint(1, 3))
+        c.update(cap=rng.randint(1, 3), prios=[rng.choice([-1000.0, -1.0, 0.0, 0.0, 0.5, 1.0, 3.0, 1e6]) for _ in range(5)])
         return c
 
     def build(z, c):
@@ -868,7 +878,8 @@ def _preempt():
             z.touch(r)
             amt = min(2, cap) if kind == "acq2" else 1
             lost = [False]
-            g = yield r.acquire(amt, priority=float(k), preempt=(kind != "nopreempt"),
+            pr = c.get("prios") or [float(k)]
+            g = yield r.acquire(amt, priority=float(pr[i % len(pr)]), preempt=(kind != "nopreempt"),
                                 on_preempt=lambda: lost.__setitem__(0, True))
             if hold > 0:
                 yield hold
@@ -889,7 +900,9 @@ def _cpu():
     def gen(rng):
         q = lat(rng, zero_p=0.0, hi=0.02)
         c = ops_cfg(rng, ["run"], n=rng.randint(3, 14), marks=[q])
-        c.update(policy=rng.choice(["fair", "prio"]), q=q, cs=rng.choice([0.0, 5e-6, 0.001]))
+        c.update(policy=rng.choice(["fair", "prio", "prio"]), q=q, cs=rng.choice([0.0, 5e-6, 0.001]),
+                 # priorities: "higher = more important", any int: negative (background work), zero, large
+                 prios=[rng.choice([-1000, -3, -2, -1, 0, 0, 1, 2, 5, 1000]) for _ in range(6)])
         return c
 
     def build(z, c):
@@ -898,7 +911,8 @@ def _cpu():
 
         def script(i, kind, k, hold):
             z.touch(cpu)
-            yield from cpu.execute(f"t{i}", cpu_time_s=max(hold, 0.001) * 2, priority=k)
+            pr = c.get("prios") or [0]
+            yield from cpu.execute(f"t{i}", cpu_time_s=max(hold, 0.001) * 2, priority=int(pr[i % len(pr)]))
         spawn(z, c, script)
         z.horizon_ns = horizon(c, 10)
     return gen, build
